@@ -1,0 +1,14 @@
+//go:build verif
+
+// Package verifgate provides named yield points for deterministic schedule replay (verification builds only).
+package verifgate
+
+// Hook, when set, is called at every gate with the gate's name and the identity of the object.
+var Hook func(point string, who string)
+
+// At announces that the calling goroutine reached the named point.
+func At(point string, who string) {
+	if h := Hook; h != nil {
+		h(point, who)
+	}
+}
